@@ -95,3 +95,27 @@ MUTANTS += [
     {"id": "C08-full-delegation-result-shifted", "prop": "C08", "expect": "POST",
      "edits": [("src/surface.rs", _FULL, "        range_bounds(self, size).map(|(s, e)| (s + 1, e))\n    }\n}\n\nmacro_rules! impl_signed_ints(")]},
 ]
+
+
+# ---- robustness round 5: the bounds of an inclusive selector read through into_inner(), range sugar for the struct literal ----
+_INCL = "                    let start = index_i64(*self.start());\n                    let end = index_i64(*self.end());\n                    range_bounds(start..=end, size)"
+MUTANTS += [
+    {"id": "C08-benign-inclusive-into-inner", "prop": "C08", "benign": True,
+     "edits": [("src/surface.rs", _INCL, "                    let (first, last) = self.into_inner();\n                    range_bounds(index_i64(first)..=index_i64(last), size)")]},
+    {"id": "C08-benign-inclusive-new-clone", "prop": "C08", "benign": True,
+     "edits": [("src/surface.rs", _INCL, "                    let start = index_i64(self.start().clone());\n                    let end = index_i64(self.end().clone());\n                    range_bounds(RangeInclusive::new(start, end), size)")]},
+    {"id": "C08-inclusive-into-inner-shifted", "prop": "C08", "expect": "DELEGATE-KIND",
+     "edits": [("src/surface.rs", _INCL, "                    let (first, last) = self.into_inner();\n                    range_bounds(index_i64(first)..=index_i64(last).saturating_sub(1), size)")]},
+    {"id": "C08-inclusive-into-inner-swapped", "prop": "C08", "expect": "DELEGATE-KIND",
+     "edits": [("src/surface.rs", _INCL, "                    let (first, last) = self.into_inner();\n                    range_bounds(index_i64(last)..=index_i64(first), size)")]},
+    {"id": "C08-benign-range-sugar", "prop": "C08", "benign": True,
+     "edits": [("src/surface.rs", _RANGE_DELEG, "                    range_bounds(index_i64(self.start)..index_i64(self.end), size)")]},
+]
+
+# a None answered by the impl itself on a test of the selector (not by range_bounds) changes what the selector means
+MUTANTS += [
+    {"id": "C08-inclusive-own-none-on-empty", "prop": "C08", "expect": "DELEGATE-KIND",
+     "edits": [("src/surface.rs", _INCL, "                    if self.is_empty() {\n                        return None;\n                    }\n                    let (first, last) = self.into_inner();\n                    range_bounds(index_i64(first)..=index_i64(last), size)")]},
+    {"id": "C08-benign-inclusive-empty-axis-shortcut", "prop": "C08", "benign": True,
+     "edits": [("src/surface.rs", _INCL, "                    if size == 0 {\n                        return None;\n                    }\n" + _INCL)]},
+]
